@@ -53,7 +53,7 @@ structure Route where
   /-- the handler (transitively, through `self.<method>()` calls) contains an assignment to
       `self.is_encrypted` -/
   setsVerified : Bool
-  deriving Repr
+  deriving DecidableEq, Repr
 
 def PAIR_SETUP : Bytes := asc "/pair-setup"
 def PAIR_VERIFY : Bytes := asc "/pair-verify"
@@ -71,6 +71,7 @@ inductive Exn
   | unicodeDecode     -- UnicodeDecodeError
   | attribute         -- AttributeError
   | type              -- TypeError
+  | localProtocol     -- h11.LocalProtocolError (only where nothing catches it)
   | other (n : Nat)   -- any other subclass of Exception
   deriving DecidableEq, Repr
 
